@@ -61,6 +61,15 @@ FRAGMENTS = [
       'model.surfaceplant.construction_years.value': ('construction_years', 'Int'),
       'model.surfaceplant.plant_lifetime.value': ('plant_lifetime', 'Int')},
      '(self.TotalRevenue.value, self.TotalCummRevenue.value)', None),
+    # SBTEconomics.Calculate carries its own copies of both statement runs
+    ('geophires_x/SBTEconomics.py', 'SBTEconomics', 'Calculate', 'PaybackFragmentSBT', 'self.ProjectPaybackPeriod.value', 2,
+     {'self.TotalCummRevenue.value': ('TotalCummRevenue', 'List')}, 'self.ProjectPaybackPeriod.value', ('ProjectPaybackPeriod', 'Rat')),
+    ('geophires_x/SBTEconomics.py', 'SBTEconomics', 'Calculate', 'CashFlowFragmentSBT', 'ProjectCAPEXPerConstructionYear', 4,
+     {'self.TotalRevenue.value': ('TotalRevenue', 'List'), 'self.TotalCummRevenue.value': ('TotalCummRevenue', 'List'),
+      'self.CCap.value': ('CCap', 'Rat'), 'self.Coam.value': ('Coam', 'Rat'),
+      'model.surfaceplant.construction_years.value': ('construction_years', 'Int'),
+      'model.surfaceplant.plant_lifetime.value': ('plant_lifetime', 'Int')},
+     '(self.TotalRevenue.value, self.TotalCummRevenue.value)', None),
 ]
 
 ANNOT = {'int': 'Int', 'float': 'Rat', 'bool': 'Bool', 'list': 'List'}
